@@ -78,11 +78,24 @@ CHECKS = {
                "stop), empty iff none exists.", "3.4, 4 C17"),
     "C18": _db("elements searches after histories with removals and id reuse: TLC requires the result to contain every live "
                "element exactly once in increasing id magnitude (InSlotOrder).", "3.4, 4 C18"),
+    "C19": dict(
+        level="model_checking",
+        text="HashMap.tla, a slot-level model of multi_map.rs (probing, tombstones, grow/shrink thresholds) with the minimum "
+             "capacity scaled to 4, is model-checked exhaustively (NoHang, CountExact, LayoutOk); the real "
+             "MultiMapStorage<u64,u64> with the real constant 64 is driven through hook H2 and the complete slot table "
+             "after every operation must equal the model's (slot-exact trace validation; on disagreement the same trace is "
+             "decided at property level: same content, every entry findable, no hang); alias and index churn histories "
+             "of 400 steps on the real database run under a watchdog and are validated against DbModel.",
+        design="3.6, 4 C19",
+        note="exhaustive for the scaled constant only; hangs are detected by a 10-20 s no-progress watchdog inside the "
+             "drivers (operations take microseconds)",
+        technique="TLA+ model checking (TLC) of the scaled mechanism + slot-exact trace validation at the real constant",
+        engine="vstorage"),
 }
 
 ENGINES = [
-    {"name": "vstorage", "path": "harness/vstorage", "serves_properties": ["C01"],
-     "kind_free_text": "Rust driver over the real storage layer with the fs hook; TLC for WalStorage/WalTrace"},
+    {"name": "vstorage", "path": "harness/vstorage", "serves_properties": ["C01", "C19"],
+     "kind_free_text": "Rust drivers over the real storage layer and hash map (hooks H1, H2); TLC for WalStorage/WalTrace, HashMap/HashMapTrace"},
     {"name": "vdb", "path": "harness/vdb",
      "serves_properties": ["C05", "C06", "C08", "C09", "C10", "C11", "C12", "C13", "C14", "C15", "C16", "C17", "C18"],
      "kind_free_text": "Rust driver recording query histories from the real database (all storage variants); "
